@@ -149,6 +149,7 @@ def drive (st : St) : List String → St × String
         " ".intercalate ([showResult r, if body = "n" then "nobody" else "closed", "same"] ++ ms.map showMsg))
   | ["sleep", _] => (st, "ok")
   | ["batch", _] => (st, "ok")
+  | ["batch", _, "hold", _] => (st, "ok")
   | "breq" :: _ => (st, "batched")
   | "areq" :: _ => (st, "skip")   -- a request after a concurrent batch: the state then depends on the schedule
   | _ => (st, "bad-op")
